@@ -219,6 +219,11 @@ def random_fault(rng, case, files):
     r = rng.random()
     cont = case["input"]["containers"][fi]
     bam = bool(case["input"].get("bam"))
+    if not bam and n and rng.random() < 0.05:
+        # the file ends in zero bytes: padded to a block boundary, or only partly written into a preallocated file
+        offs = record_offsets(case, fi)
+        keep = offs[-1] if rng.random() < 0.4 else rng.choice(offs)
+        return {"kind": "zero_fill", "file": fi, "offset": keep, "to_full_size": rng.random() < 0.5, "block": rng.choice([512, 512, 4096])}
     if (bam and r < 0.65) or (cont != "" and r < 0.08):
         # the data were cut before they were compressed: the container is intact
         plain = gen.style_plain(case, gen.plain_streams(case)[fi])
@@ -569,6 +574,9 @@ def conformance(seed, tier, k):
     for i in range(k):
         rng = engine.case_rng(seed, "C12conf", i)
         case = generate_indexed(seed, 10**9 + i, tier, rng)
+        # the real runs read regular files: no /dev/fd pipes here (under spawn they fail, see KF-C06-4)
+        case["input"].pop("devfd", None)
+        case["knobs"].pop("devfd", None)
         files = engine.gen_files(case)
         ctx = engine.Ctx(case)
         s1 = C.run_serial(case, ctx, files, name="serial")
